@@ -54,7 +54,7 @@ PROPS = {
         'units': [('contracts/M_model.vc', None, 'M_model')],
         'functions': ['replace_dictionary', 'dictionary', 'tag_models', 'new', 'get_word', 'get_weights', 'get_comment', 'chars_count', 'lemma_chars_le_bytes'],
         'replay': ['c19', 'c01'],
-        'replay_scope': '10 words x 8 weight counts for the record rule; 4 replacement dictionaries on resources/model.bin with byte-for-byte restore check; score-difference clause on 150 seeded models against the brute-force linear model; the manipulate_model binary built from /repo: --dump-dict then --replace-dict with the unmodified dump on 16 dictionaries (shipped, empty, awkward words / comments with commas, quotes, leading / trailing / inner spaces, tab, newline, ZWJ emoji, a leading hash sign) reproduces the model byte for byte, and a record with a wrong weight count is rejected; tool sweep since round 11: the dump of each dictionary is also put into ANOTHER model (two-word dictionary) and must give the model holding the dumped dictionary (an empty dump empties it); since round 12 records with weights that need all 32 bits and records with only zero weights, in the tool sweep and in the replace check',
+        'replay_scope': '10 words x 8 weight counts for the record rule; 4 replacement dictionaries on resources/model.bin with byte-for-byte restore check; score-difference clause on 150 seeded models against the brute-force linear model; the manipulate_model binary built from /repo: --dump-dict then --replace-dict with the unmodified dump on 16 dictionaries (shipped, empty, awkward words / comments with commas, quotes, leading / trailing / inner spaces, tab, newline, ZWJ emoji, a leading hash sign) reproduces the model byte for byte, and a record with a wrong weight count is rejected; tool sweep since round 11: the dump of each dictionary is also put into ANOTHER model (two-word dictionary) and must give the model holding the dumped dictionary (an empty dump empties it); since round 12 records with weights that need all 32 bits and records with only zero weights, in the tool sweep and in the replace check; since round 13 the dump column names (word, weights) as the first dictionary words',
         'not_covered': [
             'the score-difference clause is the composition of this frame with the C01 chain (dictionary entries enter the score only through contrib terms); the composition itself is not a discharged obligation',
         ],
@@ -111,7 +111,7 @@ PROPS = {
         'units': [('contracts/X_train.vc', None, 'X_train')],
         'functions': ['translate_feature', 'expand_word', 'lemma_slot_meets_predictor', 'lemma_word_slots', 'chars_count', 'gen_features'],
         'replay': 'c09',
-        'replay_scope': 'Trainer::new/add_example/train on 9 small corpora (plain, tagged, multi-candidate tags, no word boundary, only word boundaries, empty, one-character sentences, a larger one for dictionary features, one mixing partially and fully annotated sentences), all eight solvers in turn, also with a dictionary that repeats words; x every (char window, char n-gram, type window, type n-gram) in 1..3 plus 8 configurations with sizes of 0 (window 0 of one or both kinds, n-gram size 0) (1..5 thorough) x 3 dictionary settings: (through the verification hook VERIF_LEARNED) every boundary of 7-10 texts is scored by the trained model exactly as the learned quantised bias plus the learned quantised weight of each feature a reference extractor written from the statement finds for that boundary; every stored n-gram vector has the length of its own window, dictionary vectors have word length + 1 entries and the words of a length bucket share (left, inside, right), weights are 16-bit, the model re-reads and is usable; since round 11 a tenth corpus whose first annotated boundary is a word boundary and, on the two large corpora with character n-gram features, the direction check: the trained model agrees with its own training annotation on more than half of the boundaries; since round 12 window sizes 127, 128, 200, 255',
+        'replay_scope': 'Trainer::new/add_example/train on 9 small corpora (plain, tagged, multi-candidate tags, no word boundary, only word boundaries, empty, one-character sentences, a larger one for dictionary features, one mixing partially and fully annotated sentences), all eight solvers in turn, also with a dictionary that repeats words; x every (char window, char n-gram, type window, type n-gram) in 1..3 plus 8 configurations with sizes of 0 (window 0 of one or both kinds, n-gram size 0) (1..5 thorough) x 3 dictionary settings: (through the verification hook VERIF_LEARNED) every boundary of 7-10 texts is scored by the trained model exactly as the learned quantised bias plus the learned quantised weight of each feature a reference extractor written from the statement finds for that boundary; every stored n-gram vector has the length of its own window, dictionary vectors have word length + 1 entries and the words of a length bucket share (left, inside, right), weights are 16-bit, the model re-reads and is usable; since round 11 a tenth corpus whose first annotated boundary is a word boundary and, on the two large corpora with character n-gram features, the direction check: the trained model agrees with its own training annotation on more than half of the boundaries; since round 12 window sizes 127, 128, 200, 255; since round 13 n-gram sizes far beyond the window and the short sentences ((0,3), (1,4), (1,5), (2,6), ...)',
         'not_covered': [
             'the quantisation itself (f64 division, to_int_unchecked) and the pairing of a feature with ITS liblinear coefficient through the feature-id map: floating point + FFI, outside Verus; proved is WHERE a given (feature, quantised weight) pair is stored and that this is the slot the predictor reads',
             'Trainer::train as a whole is not under contract: the two blocks are extracted from it by anchors (block extraction); the statements around them (liblinear calls, loop over the hash map, Model::new call) are dropped',
@@ -146,7 +146,7 @@ PROPS = {
         'level': 'exploration',
         'units': [('contracts/X_tagtrain.vc', None, 'X_tagtrain'), ('contracts/X_train.vc', None, 'X_train')],
         'replay': 'c12',
-        'replay_scope': 'BOUNDED: 5 tagged corpora (one token with three context-dependent candidates; multi-candidate tags in two categories; absent tags in the middle, different numbers of tags per sentence, a token seen with and without tags; one category; a first sentence with fewer tag categories than later ones) x 9 (window, n-gram) configurations (three with a window of 0), dense and sparse (L1) solvers in turn x with/without a tag dictionary (tokens absent from the corpus, a token also in the corpus, an entry without tags): the decoded tag models list per token and category exactly the distinct tags of the reference written from the statement, bias and every stored score vector have one entry per trainable candidate, the tagger gives a single-candidate token that tag, a multi-candidate token one of its candidates, an unseen token none, and (through the verification hook VERIF_TAG_LEARNED) every stored tag score of every multi-candidate token of the training sentences equals the learned quantised bias plus the learned quantised weights of the reference tag features of that occurrence',
+        'replay_scope': 'BOUNDED: 5 tagged corpora (one token with three context-dependent candidates; multi-candidate tags in two categories; absent tags in the middle, different numbers of tags per sentence, a token seen with and without tags; one category; a first sentence with fewer tag categories than later ones) x 9 (window, n-gram) configurations (three with a window of 0), dense and sparse (L1) solvers in turn x with/without a tag dictionary (tokens absent from the corpus, a token also in the corpus, an entry without tags): the decoded tag models list per token and category exactly the distinct tags of the reference written from the statement, bias and every stored score vector have one entry per trainable candidate, the tagger gives a single-candidate token that tag, a multi-candidate token one of its candidates, an unseen token none, and (through the verification hook VERIF_TAG_LEARNED) every stored tag score of every multi-candidate token of the training sentences equals the learned quantised bias plus the learned quantised weights of the reference tag features of that occurrence; since round 13 every tag feature that received a weight (hook) must be a feature the reference extractor finds at some occurrence of the token in the corpus',
         'not_covered': [
             'of tag_trainer.rs two pieces are under contract (unit X_tagtrain): TagTrainer::add_example (one example per token of a sentence with tag slots, carrying exactly the n-grams that contain the token, lie inside the sentence and end 0..window characters after it) and the tag-listing part of train_tag (block extraction `list_tags`, from `let n_tags = ...` to the end of the listing loop: the number of categories is the largest number of tag slots of any example, so the zip cuts nothing off; the list of every category is `listed(examples, c)` = the distinct tags observed in that category in order of first appearance — lemma_listed_props: each once, exactly the observed ones — and the id map gives the k-th listed tag the id k; `vec![HashMap::new(); n]` / `vec![vec![]; n]` and hashbrown contains_key / len / insert are ASSUMED twins); the rest of train / train_tag (liblinear training, f64 quantisation, BTreeMap grouping of the weights, default-tag insertion) is not: the claim is the bounded sweep, labelled bounded',
             'the quantisation itself (f64) is taken as given: the sweep compares the stored tag scores with the learned QUANTISED classifier (hook VERIF_TAG_LEARNED) applied to a reference of the tag features',
